@@ -109,8 +109,8 @@ Proof.
   destruct o; cbn [step] in H; cbn [fits_step op_adds] in HF, HP.
   - apply (Hend (s', outs)); [|reflexivity]. eapply (on_new_worker_AI rqf rqs (s, [])); [exact A0 | exact H].
   - destruct (find_proc _ w); [|discriminate]. apply (Hend (s', outs)); [|reflexivity]. eapply (on_remove_worker_AI rqf rqs (s, [])); [exact A0 | exact H].
-  - apply Hsub. exact (handle_submit_array_SUB P (s, []) _ _ _ _ _ _ _ _ (s', outs) HP H).
-  - destruct (bad_graph_rq _ _); [inversion H; subst; apply Hsame; reflexivity|]. apply Hsub. exact (handle_submit_graph_SUB P (s, []) _ _ _ _ (s', outs) HP H).
+  - destruct (bad_submit_lengths _ _); [inversion H; subst; apply Hsame; reflexivity|]. apply Hsub. exact (handle_submit_array_SUB P (s, []) _ _ _ _ _ _ _ _ (s', outs) HP H).
+  - destruct (bad_graph_rq _ _); [inversion H; subst; apply Hsame; reflexivity|]. destruct (dead_dep _ _ _); [inversion H; subst; apply Hsame; reflexivity|]. apply Hsub. exact (handle_submit_graph_SUB P (s, []) _ _ _ _ (s', outs) HP H).
   - unfold handle_open in H. inversion H; subst. apply Hsame. reflexivity.
   - unfold handle_close in H. cbn in H. destruct (find_job _ j) as [jb|]; [|inversion H; subst; apply Hsame; reflexivity].
     destruct (j_open jb); [|inversion H; subst; apply Hsame; reflexivity].
